@@ -157,14 +157,19 @@ def run(ctx):
                    "captureAlternatePages": r.random() < 0.3}
             site = stage.Site()
             site.add(page, ctype="text/html; charset=utf-8", body=body)
-            act, tree, trace = stage.run_seed(run_, cfg, site, page, seed_id="d%d" % k, max_passes=2, dc_match=lambda x: False, regex_match=lambda x: False)
+            start = page
+            if r.random() < 0.3:
+                # the seed answers with a redirect: the document lives somewhere else (other directory, maybe other scheme / host)
+                start = r.choice(["http://site.example/old/start%d", "http://www.site.example/start%d", "https://site.example/a/b/c/start%d"]) % k
+                site.add(start, status=r.choice([301, 302, 308]), location=page, body="moved")
+            act, tree, trace = stage.run_seed(run_, cfg, site, start, seed_id="d%d" % k, max_passes=3, dc_match=lambda x: False, regex_match=lambda x: False)
             requested = {q["canon"] for q in trace["requests"]}
             want = expected(page, planted, cfg) if not cfg["disableAssets"] else {}
             kinds = {t for t, _ in planted}
             ctx.case(body, len(planted) >= 5 and len(kinds) >= 3)
             ctx.count("documents")
             ctx.count("planted-references", len(planted))
-            rp = {"domain": "stage", "cfg": cfg, "seed": page, "site": site.pages}
+            rp = {"domain": "stage", "cfg": cfg, "seed": start, "site": site.pages}
             bad = False
             for absu, (tag, u) in want.items():
                 if absu not in requested:
@@ -207,7 +212,7 @@ def replay(ctx, doc):
         h = core.Interactive("stage")
         run_ = stage.Run(ctx, h)
         site = stage.Site(); site.pages = rp.get("site", {})
-        act, tree, trace = stage.run_seed(run_, rp["cfg"], site, rp["seed"], max_passes=2)
+        act, tree, trace = stage.run_seed(run_, rp["cfg"], site, rp["seed"], max_passes=3)
         h.close()
         if rp.get("url") and rp["url"] not in {q["canon"] for q in trace["requests"]}:
             ctx.violation("replay: no request was built for %s" % rp["url"], rp)
